@@ -26,13 +26,20 @@ parsers' column tables are regenerated from the source on every run (`Generated/
   `table_cells_accept` (every numeric cell of the regenerated table has room for sign + one digit and
   admits every `|x|` below its bound).
 
-Not proved (measured by the correspondence on every run): the double nearest to the parsed decimal
+* File level (`Model/WriterFiles.lean`): `gft_file_roundtrip` (any `np.genfromtxt` delimiter-tuple parser × any writer line whose
+  segments have the parser's widths), `crd_file_roundtrip` + `crd_range_sufficient` (Bernese CRD: parser ∘ writer = rounding to 5
+  decimals, for the property's quantifier), `clu_file_roundtrip` (Bernese CLU), `readback_is_rounding`;
+  `writers_assign_nothing_on_inputs` (regenerated `ast` effect table of the ten writers is empty).
+
+Not proved (measured by the correspondence on every run): file-level round trips of sinex_tms / bernese_sta / csv_ (cell level
+only), the double nearest to the parsed decimal
 (`float` is correctly rounded: trusted), NumPy's `genfromtxt`/`savetxt`, pandas' `read_csv`.
 -/
 import Midgard.Proofs.Writers
 import Midgard.Proofs.WriterNumbers
 import Midgard.Proofs.WriterFilesCrd
 import Midgard.Proofs.WriterFilesClu
+import Midgard.Proofs.WriterFilesCrdRange
 import Midgard.Generated.WriterEffects
 
 namespace Midgard.Props.C17
@@ -249,6 +256,18 @@ theorem crd_file_roundtrip (texts : List Str) (writeNan : Bool) (sts : List Stat
     ∃ file, crdFile texts writeNan sts = some file ∧ crdParse file = (xyzEntries writeNan sts).map crdRecord :=
   crd_file_roundtrip_aux texts writeNan sts h
 
+/-- **Explicit bounds put an input inside the range of `crd_file_roundtrip`** (the property's quantifier): header texts
+without line breaks; at most 999 stations; for every station that has coordinates a code of 1–4 characters (in upper
+case) and a DOMES number of at most 9 characters (`textOk`: no outer blanks, no `#`, no line break); coordinates that are
+numbers up to ±9 999 999.9999, NaN or `-0.0` (`coordOk`). -/
+theorem crd_range_sufficient (solution stamp datum epoch : Str) (writeNan : Bool) (sts : List Station)
+    (hh : ∀ t ∈ [solution, stamp, datum, epoch], t.all (· != '\n') = true ∧ t.all (· != '\r') = true)
+    (hn : sts.length ≤ 999)
+    (hs : ∀ st ∈ sts, ∀ x y z, st.xyz = some (x, y, z) →
+      textOk 4 (upper st.key) ∧ upper st.key ≠ [] ∧ textOk 9 (st.domes.getD []) ∧ coordOk x ∧ coordOk y ∧ coordOk z) :
+    crdInRange [solution, stamp, datum, epoch] writeNan sts = true :=
+  crd_range_sufficient_aux solution stamp datum epoch writeNan sts hh hn hs
+
 /-- the CLU line the round-trip theorem is proved for is the one the source has now -/
 theorem clu_layout_is : rowOf "bernese_clu" =
     [.fld "station" ⟨none, 4, none, .any⟩, .lit " ", .fld "cluster" ⟨none, 16, none, .any⟩, .lit "\n"] := clu_row_is
@@ -368,6 +387,7 @@ end Midgard.Props.C17
 #print axioms Midgard.Props.C17.crd_line_matches_parser
 #print axioms Midgard.Props.C17.crd_layout_is
 #print axioms Midgard.Props.C17.crd_file_roundtrip
+#print axioms Midgard.Props.C17.crd_range_sufficient
 #print axioms Midgard.Props.C17.readback_is_rounding
 #print axioms Midgard.Props.C17.clu_layout_is
 #print axioms Midgard.Props.C17.clu_file_roundtrip
